@@ -521,7 +521,7 @@ OPS_SCOPES = {
     'C16': (['proofs', 'zk_stdlib', 'zkir', 'aggregator'], ('proofs/src/utils/', 'proofs/src/plonk/mod.rs', 'proofs/src/poly/kzg/', 'proofs/src/plonk/verifier.rs',
                                                             'proofs/src/plonk/permutation.rs', 'proofs/src/plonk/lookup/verifier.rs', 'proofs/src/plonk/trash/verifier.rs',
                                                             'proofs/src/plonk/vanishing/verifier.rs', 'proofs/src/plonk/permutation/verifier.rs', 'proofs/src/transcript/',
-                                                            'zk_stdlib/src/utils/', 'zk_stdlib/src/lib.rs', 'zkir/src/zkir.rs', 'zkir/src/parser/', 'aggregator/src/light_aggregator.rs')),
+                                                            'zk_stdlib/src/utils/', 'zk_stdlib/src/lib.rs', 'zkir/src/', 'aggregator/src/light_aggregator.rs')),
     'C08': (['circuits', 'zk_stdlib', 'zkir', 'aggregator', 'proofs'], ('circuits/src/', 'zk_stdlib/src/', 'zkir/src/', 'aggregator/src/', 'proofs/src/plonk/mod.rs')),
     'C17': (['proofs', 'zk_stdlib'], ('proofs/src/plonk/', 'proofs/src/poly/', 'proofs/src/utils/helpers.rs', 'zk_stdlib/src/utils/')),
     'C18': (['zkir'], ('zkir/src/',)),
